@@ -183,6 +183,43 @@ fn dec_cmd(op: &str, a: &[&str]) -> String {
     { let _ = (op, a); "BAD no decimal".to_string() }
 }
 
+fn f64_cmd(meth: &str, a: &[&str]) -> String {
+    let x = pf64(a[0]);
+    let y = || pf64(a[1]);
+    let r = match meth {
+        "sin" => x.sin(), "cos" => x.cos(), "tan" => x.tan(), "sinh" => x.sinh(), "cosh" => x.cosh(), "tanh" => x.tanh(),
+        "asin" => x.asin(), "acos" => x.acos(), "atan" => x.atan(), "asinh" => x.asinh(), "acosh" => x.acosh(), "atanh" => x.atanh(),
+        "exp" => x.exp(), "exp2" => x.exp2(), "ln" => x.ln(), "log10" => x.log10(), "log2" => x.log2(), "sqrt" => x.sqrt(), "cbrt" => x.cbrt(),
+        "exp_m1" => x.exp_m1(), "ln_1p" => x.ln_1p(), "to_degrees" => x.to_degrees(), "to_radians" => x.to_radians(), "recip" => x.recip(), "fract" => x.fract(),
+        "powf" => x.powf(y()), "log" => x.log(y()), "atan2" => x.atan2(y()), "hypot" => x.hypot(y()), "fmod" => x % y(), "rem_euclid" => x.rem_euclid(y()),
+        "div_euclid" => x.div_euclid(y()), "copysign" => x.copysign(y()),
+        "powi" => x.powi(a[1].parse::<i32>().unwrap()),
+        _ => return "BAD f64 op".to_string(),
+    };
+    format!("OK {}", sf64(r))
+}
+
+fn cx_cmd(meth: &str, a: &[&str]) -> String {
+    #[cfg(feature = "eval_complex")]
+    {
+        use num_complex::Complex;
+        if meth == "rdiv" { let r = pf64(a[0]) / Complex::new(pf64(a[1]), pf64(a[2])); return format!("OK {}", scx(&r)); }
+        let x = Complex::new(pf64(a[0]), pf64(a[1]));
+        let r: Complex<f64> = match meth {
+            "sin" => x.sin(), "cos" => x.cos(), "tan" => x.tan(), "sinh" => x.sinh(), "cosh" => x.cosh(), "tanh" => x.tanh(),
+            "asin" => x.asin(), "acos" => x.acos(), "atan" => x.atan(), "asinh" => x.asinh(), "acosh" => x.acosh(), "atanh" => x.atanh(),
+            "sqrt" => x.sqrt(), "ln" => x.ln(), "exp" => x.exp(), "exp2" => x.exp2(), "cbrt" => x.cbrt(), "inv" => x.inv(), "log10" => x.log10(), "log2" => x.log2(),
+            "powc" => x.powc(Complex::new(pf64(a[2]), pf64(a[3]))), "powf" => x.powf(pf64(a[2])), "log" => x.log(pf64(a[2])), "expf" => x.expf(pf64(a[2])),
+            "norm" => return format!("OK {}", sf64(x.norm())), "arg" => return format!("OK {}", sf64(x.arg())), "norm_sqr" => return format!("OK {}", sf64(x.norm_sqr())),
+            "l1_norm" => return format!("OK {}", sf64(x.l1_norm())),
+            _ => return "BAD cx op".to_string(),
+        };
+        return format!("OK {}", scx(&r));
+    }
+    #[allow(unreachable_code)]
+    { let _ = (meth, a); "BAD no complex".to_string() }
+}
+
 fn handle(line: &str) -> String {
     let parts: Vec<&str> = line.split('\t').collect();
     let op = parts[0];
@@ -193,6 +230,8 @@ fn handle(line: &str) -> String {
         #[cfg(feature = "eval_number")]
         "FROMI" => format!("OK {}", snum(&string_calculator::Number::from(parts[1].parse::<i64>().unwrap()))),
         "DEC" => dec_cmd(parts[1], &parts[2..]),
+        "F64" => f64_cmd(parts[1], &parts[2..]),
+        "CX" => cx_cmd(parts[1], &parts[2..]),
         "EVAL" | "PARSE" | "TOK" | "AST" => {
             let ev = parts[1]; let a = &parts[2..];
             match ev {
